@@ -168,12 +168,16 @@ def test_regex_ops(n=2500, seed=1):
             g = regex_once(eng.I, W, kind, rx, s, 0)
             pairs.append((kind, None if r is None else (r.span(), r.groups()),
                           None if g is None else ((g.s, g.e), tuple(None if sp is None else s[sp[0]:sp[1]] for sp in g.groups_))))
+            r = getattr(rx, kind)(s, p0)
+            g = regex_once(eng.I, W, kind, rx, s, 0, p0)
+            pairs.append((kind + "-pos", None if r is None else (r.span(), r.groups()),
+                          None if g is None else ((g.s, g.e), tuple(None if sp is None else s[sp[0]:sp[1]] for sp in g.groups_))))
         for kind, real, got in pairs:
             if real != got:
                 bad += 1
                 if bad < 6:
                     print("regex op mismatch", kind, repr(pat), fl, repr(s), "model", got, "re", real)
-    return n * 9, bad
+    return n * 12, bad
 
 
 def test_str_methods(n=200, seed=3):
@@ -183,7 +187,8 @@ def test_str_methods(n=200, seed=3):
         return (s.partition(sep), s.rpartition(sep), s.split(sep, k), s.rsplit(sep, k), s.rsplit(sep), s.replace(sep, "<>", k), s.count(sep),
                 s.removeprefix(sep), s.removesuffix(sep), s.ljust(7, "."), s.rjust(7), s.center(8, "*"), s.center(7, "*"),
                 s.find(sep), s.rfind(sep), s.startswith(sep), s.endswith(sep), s.strip("="), s.lstrip("a"), s.split(sep),
-                f"{s:<6}|", f"{s:>{k + 4}}|", f"{s:*^7}|", f"{s:.2}|", f"{s!r:>9}|")
+                f"{s:<6}|", f"{s:>{k + 4}}|", f"{s:*^7}|", f"{s:.2}|", f"{s!r:>9}|",
+                "%-*s|%4s|%-3d|%%" % (k + 3, s, sep, k), "%*s|" % (k - 4, s), "%-6s=%s" % (s, sep))
     rnd = random.Random(seed)
     bad = 0
     norm = lambda x: tuple(tuple(y) if isinstance(y, (list, tuple)) else y for y in x)
